@@ -272,6 +272,38 @@ func (fv *FuncVC) execAlloc(a *ssa.Alloc) {
 	// zero-initialise
 	p := fv.placeFromPointer(v)
 	fv.storePlace(p, &Val{T: fv.g.sorts.zero(t), Typ: t})
+	fv.allocInit(t, v)
+}
+
+// allocInit runs the ghost initialisation declared for objects of type t (//@ allocinit).
+func (fv *FuncVC) allocInit(t types.Type, ref *Val) {
+	if fv.g.spec.AllocInits == nil {
+		return
+	}
+	key := types.TypeString(t, func(p *types.Package) string {
+		if p == nil || p.Path() == "github.com/absfs/absnfs" {
+			return ""
+		}
+		return p.Name()
+	})
+	for _, gs := range fv.g.spec.AllocInits[key] {
+		gt, ok := fv.g.spec.Ghosts[gs.Ghost]
+		if !ok {
+			fv.unsupp("spec error: allocinit: unknown ghost %s", gs.Ghost)
+			continue
+		}
+		gtyp := fv.g.resolveType(gt)
+		env := &Env{fv: fv, st: fv.cur, old: fv.cur, vars: map[string]*Val{"this": ref}, allocOld: "0"}
+		val := env.tr(gs.Val)
+		name, sort := "GH$"+gs.Ghost, fv.sortOf(gtyp)
+		if gs.Idx != nil {
+			idx := env.tr(gs.Idx)
+			fv.heapSet(name, sort, "(store "+fv.heapGet(name, sort)+" "+idx.T+" "+val.T+")")
+		} else {
+			fv.heapSet(name, sort, val.T)
+		}
+		fv.reportSpecErrs(env, &Clause{File: "allocinit", Line: gs.Line})
+	}
 }
 
 func (fv *FuncVC) execUnOp(x *ssa.UnOp) {
@@ -556,7 +588,50 @@ func (fv *FuncVC) equal(a, b *Val) string {
 			}
 		}
 	}
+	// string compared with a constant: content equality (extensionality instance, quantifier-free)
+	if t != nil && isString(t) {
+		if s, ok := fv.g.strConstValue(b.T); ok && a.T != b.T {
+			fv.strEqConst(a.T, b.T, s)
+		} else if s, ok := fv.g.strConstValue(a.T); ok && a.T != b.T {
+			fv.strEqConst(b.T, a.T, s)
+		}
+	}
 	return eq(a.T, b.T)
+}
+
+func (g *Gen) strConstValue(term string) (string, bool) {
+	if term == "str!empty" {
+		return "", true
+	}
+	for s, n := range g.strConsts {
+		if n == term {
+			return s, true
+		}
+	}
+	return "", false
+}
+
+// strEqConst emits: (x = c) <=> (len x = len c and bytes agree); valid by string extensionality.
+func (fv *FuncVC) strEqConst(x, c, s string) {
+	if len(s) > 64 {
+		return
+	}
+	if _, isConst := fv.g.strConstValue(x); isConst {
+		return
+	}
+	key := x + "=" + c
+	if fv.strEqDone == nil {
+		fv.strEqDone = map[string]bool{}
+	}
+	if fv.strEqDone[key] {
+		return
+	}
+	fv.strEqDone[key] = true
+	parts := []string{fmt.Sprintf("(= (slen %s) %d)", x, len(s))}
+	for i := 0; i < len(s); i++ {
+		parts = append(parts, fmt.Sprintf("(= (sat %s %d) %d)", x, i, s[i]))
+	}
+	fv.emit(fmt.Sprintf("(assert (= (= %s %s) %s))", x, c, and(parts...)))
 }
 
 func isUntypedNil(t types.Type) bool {
@@ -978,9 +1053,23 @@ func (fv *FuncVC) execMakeInterface(x *ssa.MakeInterface) {
 	val := v.T
 	if v.Place != nil {
 		val = fv.placeToValue(v.Place, x.X.Type())
+		if v.Place.Kind != PHeap || !isOpaqueAddrType(v.Place.Typ) {
+			fv.unsupp("address of a field/element boxed in an interface: writes through it are not tracked (%s)", fv.posStr(x.Pos()))
+		}
 	}
 	b := fv.box(&Val{T: val, Typ: x.X.Type()}, x.X.Type())
 	fv.setReg(x, &Val{T: fmt.Sprintf("(mk-iface %d %s)", tid, b), Typ: x.Type()})
+}
+
+// isOpaqueAddrType: struct types from sync, sync/atomic, bytes... whose address is used for identity only.
+func isOpaqueAddrType(t types.Type) bool {
+	if n, ok := t.(*types.Named); ok && n.Obj().Pkg() != nil {
+		switch n.Obj().Pkg().Path() {
+		case "sync", "sync/atomic", "bytes", "strings", "time":
+			return true
+		}
+	}
+	return false
 }
 
 func (fv *FuncVC) execTypeAssert(x *ssa.TypeAssert) {
